@@ -34,6 +34,9 @@ pub enum COp {
     Bf2,
     /// CREATE without O_EXCL on the existing name `a`: an entry (one reference) and a handle, released at once
     Cr,
+    /// plain READDIR of `rd2`, which holds two names of the file: every entry is looked up and forgotten again inside
+    /// the server; the client receives no reference
+    Rd,
 }
 
 #[derive(Clone, Debug)]
@@ -67,6 +70,7 @@ fn valid(prog: &[COp], grant: u64) -> bool {
                     return false;
                 }
             }
+            COp::Rd => {}
         }
     }
     true
@@ -79,7 +83,7 @@ fn owned_after(prog: &[COp], grant: u64) -> u64 {
             COp::La | COp::Lh | COp::Lx | COp::Rp | COp::Cr => owned += 1,
             COp::F | COp::Bf1 => owned -= 1,
             COp::F2 | COp::Bf2 => owned -= 2,
-            COp::G => {}
+            COp::G | COp::Rd => {}
         }
     }
     owned
@@ -121,6 +125,9 @@ impl Tree {
         std::fs::write(dir.join("a"), b"c09\n").unwrap();
         std::fs::hard_link(dir.join("a"), dir.join("h")).unwrap();
         std::fs::hard_link(dir.join("a"), dir.join("rd/x")).unwrap();
+        std::fs::create_dir_all(dir.join("rd2")).unwrap();
+        std::fs::hard_link(dir.join("a"), dir.join("rd2/y1")).unwrap();
+        std::fs::hard_link(dir.join("a"), dir.join("rd2/y2")).unwrap();
         Tree { dir }
     }
 }
@@ -140,6 +147,7 @@ pub struct ThreadLog {
 pub struct Run {
     pub fs: Arc<PassthroughFs<()>>,
     pub rd: u64,
+    pub rd2: u64,
     pub granted_ino: Option<u64>,
     pub logs: Vec<Arc<Mutex<ThreadLog>>>,
 }
@@ -156,7 +164,7 @@ pub fn new_fs(tree: &Tree, cfg: usize) -> Arc<PassthroughFs<()>> {
     Arc::new(fs)
 }
 
-fn do_op(fs: &PassthroughFs<()>, rd: u64, op: COp, my_ino: &mut Option<u64>, log: &Mutex<ThreadLog>) {
+fn do_op(fs: &PassthroughFs<()>, rd: u64, rd2: u64, op: COp, my_ino: &mut Option<u64>, log: &Mutex<ThreadLog>) {
     let ctx = Context::new();
     let mut look = |parent: u64, name: &str| match fs.lookup(&ctx, parent, &cs(name)) {
         Ok(e) => {
@@ -227,6 +235,18 @@ fn do_op(fs: &PassthroughFs<()>, rd: u64, op: COp, my_ino: &mut Option<u64>, log
                 Err(e) => log.lock().unwrap().errors.push(format!("lookup(create a) failed: {}", e)),
             }
         }
+        COp::Rd => {
+            let mut names = 0usize;
+            let h = fs.opendir(&ctx, rd2, libc::O_RDONLY as u32).ok().and_then(|(h, _)| h).unwrap_or(0);
+            let r = fs.readdir(&ctx, rd2, h, 4096, 0, &mut |_d| {
+                names += 1;
+                Ok(1)
+            });
+            let _ = fs.releasedir(&ctx, rd2, 0, h);
+            if r.is_err() || names != 2 {
+                log.lock().unwrap().errors.push(format!("lookup(readdir rd2) listed {} names ({:?})", names, r.err()));
+            }
+        }
         COp::G => match *my_ino {
             Some(i) => {
                 if let Err(e) = fs.getattr(&ctx, i, None) {
@@ -243,6 +263,7 @@ pub fn prepare(tree: &Tree, sc: &Scenario) -> (Run, Vec<Box<dyn FnOnce() + Send>
     let fs = new_fs(tree, sc.cfg);
     let ctx = Context::new();
     let rd = fs.lookup(&ctx, 1, &cs("rd")).expect("lookup rd").inode;
+    let rd2 = fs.lookup(&ctx, 1, &cs("rd2")).expect("lookup rd2").inode;
     let mut granted_ino = None;
     for g in &sc.grants {
         for _ in 0..*g {
@@ -259,11 +280,11 @@ pub fn prepare(tree: &Tree, sc: &Scenario) -> (Run, Vec<Box<dyn FnOnce() + Send>
         let mut my = if sc.grants[t] > 0 { granted_ino } else { None };
         bodies.push(Box::new(move || {
             for op in prog {
-                do_op(&fs2, rd, op, &mut my, &log);
+                do_op(&fs2, rd, rd2, op, &mut my, &log);
             }
         }));
     }
-    (Run { fs, rd, granted_ino, logs }, bodies)
+    (Run { fs, rd, rd2, granted_ino, logs }, bodies)
 }
 
 /// The oracle for one completed execution.
@@ -303,9 +324,9 @@ pub fn judge(run: &Run, sc: &Scenario) -> Vec<(String, String)> {
         }
     }
     let live = run.fs.verif_table_sizes().0;
-    let want_live = 2 + if expected > 0 { 1 } else { 0 };
+    let want_live = 3 + if expected > 0 { 1 } else { 0 };
     if live != want_live && bad.is_empty() {
-        bad.push(("inode-objects".into(), format!("{} live inode objects, expected {} (root, rd{})", live, want_live, if expected > 0 { ", the file" } else { "" })));
+        bad.push(("inode-objects".into(), format!("{} live inode objects, expected {} (root, rd, rd2{})", live, want_live, if expected > 0 { ", the file" } else { "" })));
     }
     // every outstanding reference must still be usable, and dropping them must remove the entry
     if bad.is_empty() && expected > 0 {
@@ -315,7 +336,7 @@ pub fn judge(run: &Run, sc: &Scenario) -> Vec<(String, String)> {
             bad.push(("reference-not-usable".into(), format!("getattr({}) after the run failed with {} although {} references are outstanding", ino, e, expected)));
         }
         run.fs.forget(&ctx, ino, expected);
-        if run.fs.verif_refcount(ino).is_some() || run.fs.verif_table_sizes().0 != 2 {
+        if run.fs.verif_refcount(ino).is_some() || run.fs.verif_table_sizes().0 != 3 {
             bad.push(("entry-not-removed".into(), format!("after forgetting the {} outstanding references inode {} is still live", expected, ino)));
         }
     }
@@ -358,6 +379,26 @@ pub fn scenarios(thorough: bool) -> Vec<Scenario> {
                         }
                         // scenarios made of La / G only are part of the first family
                         if !a.iter().chain(b.iter()).any(|o| matches!(o, COp::Cr | COp::Bf1 | COp::Bf2)) {
+                            continue;
+                        }
+                        out.push(Scenario { cfg, grants: vec![g0, g1], progs: vec![a.clone(), b.clone()] });
+                    }
+                }
+            }
+        }
+        // two threads, third alphabet: a plain READDIR over two names of the file (lookups and forgets inside the server)
+        // against lookups and forgets of the client
+        let alpha_c: Vec<COp> = vec![COp::La, COp::Rd, COp::F];
+        for g0 in 0..=1u64 {
+            for g1 in 0..=g0 {
+                let p0 = programs(2, g0, &alpha_c);
+                let p1 = programs(2, g1, &alpha_c);
+                for a in &p0 {
+                    for b in &p1 {
+                        if g0 == g1 && format!("{:?}", a) > format!("{:?}", b) {
+                            continue;
+                        }
+                        if !a.iter().chain(b.iter()).any(|o| matches!(o, COp::Rd)) {
                             continue;
                         }
                         out.push(Scenario { cfg, grants: vec![g0, g1], progs: vec![a.clone(), b.clone()] });
